@@ -134,7 +134,18 @@ def evolve_for_history(doc):
         if i % 5 == 1 and st["name"] not in ("LSPObject",):
             # ... and some gain a REQUIRED property (anything resolved against the old declaration is now invalid)
             st["properties"].append({"name": "verifReq", "type": {"kind": "base", "name": "boolean"}})
-    d["structures"].append({"name": "VerifHistoryMixin", "properties": [{"name": "verifMixed", "type": {"kind": "base", "name": "string"}, "optional": True}]})
+    d["structures"].append({"name": "VerifHistoryMixin", "properties": [{"name": "verifMixed", "type": {"kind": "base", "name": "string"}, "optional": True},
+                                                                       # proposed AND deprecated at once; a digit directly before a capital
+                                                                       {"name": "verif2Way", "type": {"kind": "base", "name": "boolean"}, "optional": True,
+                                                                        "proposed": True, "deprecated": "use verifMixed"}]})
+    # messages without typeName whose method-derived name already ends in Request / Notification
+    d.setdefault("requests", []).append({"method": "verif/confirmRequest", "result": {"kind": "base", "name": "null"}, "messageDirection": "serverToClient"})
+    d.setdefault("notifications", []).append({"method": "verif/tickNotification", "messageDirection": "clientToServer"})
+    for e in d.get("enumerations", []):
+        if e["name"] in referenced and len(e["values"]) > 1:
+            e["values"][-1]["proposed"] = True
+            e["values"][-1]["deprecated"] = "history"
+            break
     for st in d["structures"]:
         if st["properties"] and st["name"] != "VerifHistoryMixin" and st["name"] not in ("LSPObject",):
             st.setdefault("mixins", []).append({"kind": "reference", "name": "VerifHistoryMixin"})
